@@ -1,0 +1,87 @@
+//go:build verif
+
+package keylock
+
+// VerifEntries number of live per-key entries of a generic locker
+func VerifEntries[T comparable](l TLocker[T]) int {
+	n := 0
+	switch v := l.(type) {
+	case *TKeyLocker[T]:
+		v.locker.Lock()
+		n = len(v.lockMap)
+		v.locker.Unlock()
+	case *TKeyLockerGrp[T]:
+		for _, s := range v.ls {
+			s.locker.Lock()
+			n += len(s.lockMap)
+			s.locker.Unlock()
+		}
+	}
+	return n
+}
+
+// VerifKeyCounts registered readers / writers of a key of a generic locker
+func VerifKeyCounts[T comparable](l TLocker[T], key T) (r, w int, present bool) {
+	var s *TKeyLocker[T]
+	switch v := l.(type) {
+	case *TKeyLocker[T]:
+		s = v
+	case *TKeyLockerGrp[T]:
+		s = v.calculateKey(key)
+	default:
+		return 0, 0, false
+	}
+	s.locker.Lock()
+	defer s.locker.Unlock()
+	e, ok := s.lockMap[key]
+	if !ok {
+		return 0, 0, false
+	}
+	return e.readCount, e.writeCount, true
+}
+
+// VerifShard shard index of a key of a generic locker (0 for the single locker)
+func VerifShard[T comparable](l TLocker[T], key T) int {
+	if v, ok := l.(*TKeyLockerGrp[T]); ok {
+		return v.calKeyFn(key)
+	}
+	return 0
+}
+
+// VerifEntriesI number of live per-key entries of an interface-keyed locker
+func VerifEntriesI(l Locker) int {
+	n := 0
+	switch v := l.(type) {
+	case *KeyLocker:
+		v.locker.Lock()
+		n = len(v.lockMap)
+		v.locker.Unlock()
+	case *KeyLockerGrp:
+		for _, s := range v.ls {
+			s.locker.Lock()
+			n += len(s.lockMap)
+			s.locker.Unlock()
+		}
+	}
+	return n
+}
+
+// VerifKeyCountsI registered readers / writers of a key of an interface-keyed locker
+func VerifKeyCountsI(l Locker, key interface{}) (r, w int, present bool) {
+	var s *KeyLocker
+	switch v := l.(type) {
+	case *KeyLocker:
+		s = v
+	case *KeyLockerGrp:
+		s = v.calculateKey(key)
+	default:
+		return 0, 0, false
+	}
+	s.locker.Lock()
+	defer s.locker.Unlock()
+	e, ok := s.lockMap[key]
+	if !ok {
+		return 0, 0, false
+	}
+	return e.readCount, e.writeCount, true
+}
